@@ -1,14 +1,14 @@
 #!/usr/bin/env python3
 """tools/validate_seed.py <seed dir> <property id> <needs text> : confirm a seeded change (demo fails with / passes without;
 pinned baseline still passes with it; the property's check reports a violation with it and none without) and store it
-under /verif/seeded/<name>/ (patch.diff, demo.py, meta.json).  The change is applied to /repo only for the duration of
-each step and undone straight afterwards."""
+under /verif/seeded/<name>/ (patch.diff, demo.py, meta.json).  Everything runs on a scratch copy of /repo's current tree
+under /tmp (removed afterwards); /repo itself is never touched, the checks read the copy through VERIF_REPO."""
 import json, os, re, shutil, subprocess, sys, time
 
 seed, pid, needs = sys.argv[1], sys.argv[2], sys.argv[3]
 unit = sys.argv[4] if len(sys.argv) > 4 else None
 name = os.path.basename(seed.rstrip("/"))
-wt = f"/tmp/wt-{pid}"
+wt = f"/tmp/scr-{name}"
 patch = os.path.join(seed, "patch.diff")
 meta = {"property": pid, "name": name, "needs_to_manifest": needs, "ran": []}
 
@@ -26,14 +26,16 @@ def passed_set(xml):
             ok.add(f"{tc.get('classname')}::{tc.get('name')}")
     return ok
 
-# 1. demo in the scratch worktree
+# 1. demo in a scratch copy of the current tree
+shutil.rmtree(wt, ignore_errors=True)
+sh(f"rsync -a --exclude .git --exclude '*.pyc' /repo/ {wt}/")
 env = dict(os.environ, REPO_SRC=f"{wt}/src", PYTHONPATH=f"{wt}/src")
-sh("git checkout -- .", cwd=wt)
-rc0, _ = sh(f"/venv/bin/python {seed}/demo.py", cwd=wt, env=env)
-rc, out = sh(f"git apply {patch}", cwd=wt)
+demo_src = open(f"{seed}/demo.py").read().replace(f"/tmp/wt-{pid}", wt)
+open(f"{wt}/_demo.py", "w").write(demo_src)
+rc0, out0 = sh(f"/venv/bin/python {wt}/_demo.py", cwd=wt, env=env)
+rc, out = sh(f"patch -p1 -s < {patch}", cwd=wt)
 assert rc == 0, out
-rc1, out1 = sh(f"/venv/bin/python {seed}/demo.py", cwd=wt, env=env)
-sh("git checkout -- .", cwd=wt)
+rc1, out1 = sh(f"/venv/bin/python {wt}/_demo.py", cwd=wt, env=env)
 meta["demo_exit_without_change"] = rc0
 meta["demo_exit_with_change"] = rc1
 meta["demo_tail_with_change"] = out1.strip().splitlines()[-3:]
@@ -41,12 +43,10 @@ meta["ran"].append("demo.py in scratch worktree with and without the change")
 
 # 2. pinned baseline with the change applied to /repo (undone afterwards)
 base = json.load(open("/root/.vp/BASELINE.json"))
-rc, out = sh(f"git apply {patch}", cwd="/repo")
-assert rc == 0, out
 try:
     sh("/venv/bin/python -m pytest -ra -q -p no:cacheprovider --timeout=900 --continue-on-collection-errors "
-       "--junitxml=/tmp/seed.xml", cwd="/repo")
-    ok = passed_set("/tmp/seed.xml")
+       f"--junitxml=/tmp/seed-{name}.xml", cwd=wt, env=dict(os.environ, PYTHONPATH=f"{wt}/src"))
+    ok = passed_set(f"/tmp/seed-{name}.xml")
     missing = sorted(set(base["stable_pass"]) - ok)
     meta["baseline_stable_pass_still_passing"] = len(base["stable_pass"]) - len(missing)
     meta["baseline_newly_failing"] = missing
@@ -54,20 +54,15 @@ try:
     # 3. the property's check with the change
     t = time.time()
     cmd = f"bin/check {pid}" + (f" --unit '{unit}'" if unit else "")
-    rc_c, out_c = sh(cmd, cwd="/verif")
+    rc_c, out_c = sh(cmd, cwd="/verif", env=dict(os.environ, VERIF_REPO=wt))
     meta["check_cmd"] = cmd
     meta["check_exit_with_change"] = rc_c
     meta["check_violation_lines"] = [l for l in out_c.splitlines() if l.startswith("VIOLATION")][:6]
     meta["check_obligations"] = [l.strip() for l in out_c.splitlines() if l.strip().startswith("obligation:")][:6]
     meta["check_wall_s"] = round(time.time() - t, 1)
 finally:
-    sh("git checkout -- .", cwd="/repo")
-    for f in ("-p",):
-        try:
-            os.unlink(os.path.join("/repo", f))
-        except OSError:
-            pass
-meta["ran"].append("bin/check with the change applied to /repo, then git checkout")
+    pass
+meta["ran"].append("bin/check against the scratch copy carrying the change (VERIF_REPO)")
 # tests that fail with the change: are they flaky on the clean tree too (Monte Carlo draws)?
 flaky = []
 for t in list(meta["baseline_newly_failing"]):
@@ -89,5 +84,6 @@ shutil.copy(os.path.join(seed, "demo.py"), dst)
 if os.path.exists(os.path.join(seed, "notes.md")):
     shutil.copy(os.path.join(seed, "notes.md"), dst)
 json.dump(meta, open(os.path.join(dst, "meta.json"), "w"), indent=1)
+shutil.rmtree(wt, ignore_errors=True)
 print(json.dumps({k: meta[k] for k in ("name", "confirmed", "detected", "demo_exit_without_change",
                                        "demo_exit_with_change", "baseline_newly_failing", "check_exit_with_change")}))
